@@ -1,15 +1,24 @@
 /*@UNIT
 {
-  "property": "C17",
-  "unit": "tls13_gcm_encrypt",
-  "function": "csAesGcmEncryptTls13",
-  "source": "matrixssl/tls13CipherSuite.c",
-  "keep_bodies": ["tls13MakeWriteNonce", "tls13MakeEncryptAad", "psAesIncrSec"],
-  "assumed": ["psAesReadyGCM, psAesEncryptGCM, psAesGetGCMTag (models: record nonce, AAD, call order in ghosts)"],
-  "mode": "proof",
-  "why_proof": "all loops have constant bounds (8, 12), fully unwound with unwinding assertions",
-  "unwind": 14,
-  "native_replay": true
+ "property": "C17",
+ "unit": "tls13_gcm_encrypt",
+ "function": "csAesGcmEncryptTls13",
+ "source": "matrixssl/tls13CipherSuite.c",
+ "keep_bodies": [
+  "tls13MakeWriteNonce",
+  "tls13MakeEncryptAad",
+  "psAesIncrSec"
+ ],
+ "assumed": [
+  "psAesReadyGCM, psAesEncryptGCM, psAesGetGCMTag (models: record nonce, AAD, call order in ghosts)"
+ ],
+ "mode": "proof",
+ "why_proof": "all loops have constant bounds (8, 12), fully unwound with unwinding assertions",
+ "unwind": 14,
+ "native_replay": true,
+ "properties": [
+  "C10"
+ ]
 }
 @*/
 /* C17.U1 / C10  TLS 1.3 AES-GCM record sealing (RFC 8446 5.2, 5.3):
